@@ -9,9 +9,9 @@ from .. import ctx as C
 
 
 def newline_rule(lm) -> str:
-    c = [n for n, rm in lm.rules.items() if rm.newline]
+    c = [n for n, rm in lm.rules.items() if rm.newline and rm.texts is not None and '\n' in rm.texts]
     if len(c) != 1:
-        raise AnalysisError('lexer: expected exactly one rule whose match can contain a line break, found %r' % c)
+        raise AnalysisError('lexer: expected exactly one separator rule matching a bare line break, found %r' % c)
     return c[0]
 
 
